@@ -222,4 +222,37 @@ example : normFactor [("H2O", fun _ => (1 / 100000 : ℝ))] [("H2", fun _ => 85 
   simp [normFactor, colSum, rawActive, rawInactive, replaceRows, newGases, hasName, List.find?]
   norm_num
 
+/-! ### a species at zero abundance changes nothing — also not the mean molecular weight (hence the scale height)
+
+  `MixLookup.muOf` is the mean molecular weight of the mixture a makefree chemistry publishes (`MakeFreeMixin.compute_mu_profile`
+  as repaired: on the pinned tree it weighed the WRAPPED chemistry's own table, so a molecule of a chemistry file freed to zero
+  abundance kept the file's abundance in `mu` — found by the makefree stream of this check, DESIGN §6). -/
+
+open Taurex.MixLookup in
+/-- a species whose (freed) abundance is zero in a layer does not enter the mean molecular weight of that layer, whichever
+    table it is listed in and wherever it stands: the atmosphere weighs what it weighs without the species -/
+theorem zero_species_weighs_nothing (mass : String → ℝ) (pre post other : List (String × (ℕ → ℝ))) (n : String)
+    (r : ℕ → ℝ) (l : ℕ) (h : r l = 0) :
+    muOf mass (pre ++ (n, r) :: post) other l = muOf mass (pre ++ post) other l ∧
+    muOf mass other (pre ++ (n, r) :: post) l = muOf mass other (pre ++ post) l := by
+  unfold muOf
+  rw [tableWeight_zero_row mass pre post n r l h]
+  exact ⟨rfl, rfl⟩
+
+open Taurex.MixLookup in
+/-- the weight of the published (renormalised) mixture is the weight of the un-normalised tables divided by the column sum:
+    renormalisation is not lost on the way to `mu` -/
+theorem mu_of_renormalised (mass : String → ℝ) (active inactive : List (String × (ℕ → ℝ))) (c : ℝ) (l : ℕ) :
+    muOf mass (active.map fun p => (p.1, fun k => p.2 k * c)) (inactive.map fun p => (p.1, fun k => p.2 k * c)) l
+      = muOf mass active inactive l * c := by
+  unfold muOf
+  rw [tableWeight_scale, tableWeight_scale]; ring
+
+-- non-vacuity (the reproducer `findings/c03_makefree_zero_abundance.py`): H2 6/7, He 1/7 published, CO2 freed to zero:
+-- the weight is that of the H2/He mixture (masses 2, 4, 44 for the example)
+open Taurex.MixLookup in
+example : muOf (fun n => if n == "H2" then (2 : ℝ) else if n == "He" then 4 else 44)
+    [("CO2", fun _ => 0)] [("H2", fun _ => 6 / 7), ("He", fun _ => 1 / 7)] 0 = 2 * (6 / 7) + 4 * (1 / 7) := by
+  simp [muOf, tableWeight]; ring
+
 end Taurex.C03
